@@ -448,7 +448,11 @@ def check(pid, tier, replay_file=None):
         rc = rcs[k]
         logtext = open(os.path.join(sd, "log.txt"), errors="replace").read()
         if rc == 0:
-            m = re.search(r"OK, passed (\d+) tests", logtext)
+            # rapid stops drawing cases when the go test deadline approaches and still reports success
+            done = (st or {}).get("evaluations", 0)
+            want = max(1, checks // tc.get("race_div", 4)) if (race_binary is not None and k >= shards - tc.get("race_shards", 0)) else checks
+            if done < want:
+                inconclusive.append("shard %d ran only %d of %d cases before its time budget (%ds) ended" % (k, done, want, timeout))
             continue
         failmin = os.path.join(sd, "fail-min.json")
         if rc == "timeout":
